@@ -451,3 +451,5 @@ def run(tier, seed):
 
 
 RULE += (' Pools that mix the carrier classes of the framework (Individual, IndividualNSGAII, IndividualEpsMOEA, IndividualSwarm, loaded from a dict) in every rotation, n<=3.')
+
+RULE += (' Beyond small: truncation of structured populations of 31..257 (thorough 1000) at seven sizes; exact crowding formula on tie-free fronts of 31..1000 members with 1-3 objectives.')
